@@ -51,7 +51,7 @@ CLAIMED = {
             "DATE(date_from_int(n)) = n and the wrapped YEAR/MONTH/DAY = date_from_int for every serial day, WEEKDAY period 7, DATE carry against a Gregorian-rule oracle for all "
             "(y, m, d) with m in -40..60 and d in 1..60, #NUM! instead of exceptions at the ends of the calendar, YEARFRAC symmetry (bases 2, 3).",
             "Bounds and gaps: d <= 0 is a recorded known finding; civil-date oracle, EDATE/EOMONTH month arithmetic and YEARFRAC bases 0/1/4 only in the thorough tier (may be inconclusive); "
-            "HOUR/MINUTE/SECOND not yet claimed; trusted: CrossHair's datetime model, calendar.monthrange model.",
+            "HOUR/MINUTE/SECOND on Engine K in binary64 for whole seconds (10-minute slices; all of the day in the thorough tier); trusted: CrossHair's datetime model, calendar.monthrange model.",
             "DESIGN.md 4/C17"),
     "C05": ("model_checking",
             "CrossHair symbolic execution of the real lazy graph construction and evaluation over enumerated first-evaluation orders and access paths with symbolic workbook constants",
